@@ -2,9 +2,9 @@
 
 TRUSTED_BASE = [
     "T1 Verus 0.2026.09.13 + Z3 (and Kani 0.68 + CBMC 6.11 where a Kani obligation is listed)",
-    "T2 the extractor vx: item location, normalisations N1-N5 and the listed desugarings (per-item SHA-256 in functions_under_contract)",
+    "T2 the extractor vx: item location, normalisations N1-N6 / N4b and the desugarings counted in desugarings_applied (R-FMT R-LOG R-ALL R-FOREACH R-ENUM R-EXTMAP R-UNDERSCORE R-MAPITER R-CONTINUE R-COLLECT R-SPAWN R-REC R-SEGMENT R-SLICE1 R-UFCS R-UTF8 R-CLOSPEC R-TAKE R-ASSERTEQ R-WHILELET R-SELF - DESIGN 3.1 and 10.5); per-item SHA-256 in functions_under_contract",
     "T3 vstd specifications of core/alloc items and the assumed std specifications listed under assumptions",
-    "T5 machine arithmetic is NOT treated as mathematical: Verus checks overflow on every executable operation",
+    "T5 machine arithmetic is NOT treated as mathematical: Verus checks overflow on every executable operation (the two exceptions - a depth counter and a node counter in recursive functions - are listed under assumptions of the properties concerned)",
 ]
 
 BASE_VERIFY_FNS = ["verify_label", "verify_existence", "verify_existence_with_val", "verify_existence_with_commitment", "verify_nonexistence",
